@@ -194,16 +194,16 @@ def divmod(P, D, reverse=False):
         return [], P
     n = len(P) - len(D) + 1
     ld = D[-1]
-    D = [0] * (len(P) - len(D)) + D
 
-    Q = []
+    Q = [0] * n
     R = P
-    for k in range(n):
-        if not R:
-            break
+    while len(R) >= len(D):
+        # the degree of R may drop by more than one in a single step
+        k = len(R) - len(D)
         t = R[-1] / ld
-        Q.insert(0, t)
-        R = add(R, multiply(-t, D[k:], reverse=reverse), reverse=reverse)
+        Q[k] = t
+        # the leading term of R cancels by construction
+        R = add(R, multiply(-t, [0] * k + D, reverse=reverse), reverse=reverse)[:-1]
         while R and R[-1] == 0:
             R.pop()
     while Q and Q[-1] == 0:
